@@ -28,7 +28,7 @@
 
 #define NS __attribute__((no_sanitize_thread, noinline))
 #define MAXTH 4
-#define MAXENT 40
+#define MAXENT 80
 #define MAXSEC 64
 enum { CF_WRAPPED = 0, CF_SPECIAL_ARG = 1, CF_ODD_FN = 2, CF_FN_CHANGE = 3, CF_RECLAIMER_RAN = 4, CF_SECTION_OPEN_AT_DEFER = 5, CF_REREGISTER = 6,
        CF_FLUSH_IN_DEFER = 7, CF_WAITED_FOR_RECLAIMER = 8, CF_BARRIER_RAN_OTHERS = 9 };
